@@ -75,11 +75,11 @@ func judge(c *Case) (fs []failure, links int, trace any) {
 }
 
 type finding struct {
-	Sig     string `json:"sig"`
-	Count   int    `json:"count"`
-	Case    *Case  `json:"case"` // locally minimal failing case
-	Human   string `json:"human"`
-	minimal []int
+	Sig     string  `json:"sig"`
+	Count   int     `json:"count"`
+	Case    *Case   `json:"case"` // locally minimal failing case
+	Human   string  `json:"human"`
+	minimal [][]int // locally minimal grid points that led to this signature
 	space   string
 	ftype   string
 	classes map[string]bool // URL classes covered by this finding (see generalise)
@@ -221,14 +221,18 @@ func sigOf(sp space, d []int, ftype, class string) string {
 	return strings.Join(parts, ":")
 }
 
-// covers: the known minimal case is contained in d (same values on all its non-default dims).
-func covers(dims []dim, minimal, d []int) bool {
-	for i := range dims {
-		if !dims[i].Free && minimal[i] != 0 && minimal[i] != d[i] {
-			return false
+// covers: a known minimal case is contained in d (same values on all its non-default dims).
+func covers(dims []dim, minimals [][]int, d []int) bool {
+next:
+	for _, m := range minimals {
+		for i := range dims {
+			if !dims[i].Free && m[i] != 0 && m[i] != d[i] {
+				continue next
+			}
 		}
+		return true
 	}
-	return true
+	return false
 }
 
 // explore enumerates every grid point of every space and evaluates the ones that hash to this shard.
@@ -295,13 +299,17 @@ func explore(spaces []space, shard, of int) *shardOut {
 				for _, k := range found {
 					if k.Sig == sig {
 						k.Count++
+						k.minimal = append(k.minimal, m)
+						for cl := range classes {
+							k.classes[cl] = true
+						}
 						continue nextFailure
 					}
 				}
 				mc := sp.Build(m)
 				mc.Desc = describe(sp, m)
 				mf := fails(mc, f.Type, f.Class)
-				found = append(found, &finding{Sig: sig, Count: 1, Case: mc, Human: mf.Detail, minimal: m, space: sp.Name(), ftype: f.Type, classes: classes})
+				found = append(found, &finding{Sig: sig, Count: 1, Case: mc, Human: mf.Detail, minimal: [][]int{m}, space: sp.Name(), ftype: f.Type, classes: classes})
 			}
 		}
 		out.Stats = append(out.Stats, st)
